@@ -38,6 +38,7 @@ func main() {
 			"unrelated rules and invalid levels; statement-only snippet files with and without @scope. Every (input, configuration) is linted by the real `falco lint` binary in a private directory in all 6 combinations {plain,-json} x {default,-v,-vv}. " +
 			"Monitors: (i) exit status != 0 iff [syntax error or >=1 diagnostic of effective severity ERROR]; (ii) all six runs agree on exit status and on (errors, warnings, infos) parsed from the summary line and from the -json document; " +
 			"(iii) those counts equal the constructed multiset after ignores and overrides; (iv) with -json stdout is exactly one JSON document, whose counts agree with the summary line on stderr and with its own LintErrors list. " +
+			"Deterministic families: three included modules in all 8 arrangements of {fine, syntax error} plus a broken module below a fine one and a broken statement module inside a subroutine; rule overrides combined with `--generated` (in front of and behind the file name), `-I`, and a configuration file in a parent directory. " +
 			"non-trivial = an input with >=1 constructed diagnostic or a syntax error; distinct by (file texts, configuration)",
 		Assumptions: []string{
 			"the construction is cross-checked against the in-process linter on the same sources (ParseVCLOrSnippet + linter.Lint with an in-memory resolver); a mismatch is inconclusive for that input and only the construction-independent monitors (ii) and (iv) are applied to it",
@@ -427,6 +428,7 @@ var classPlan = []string{
 }
 
 func gen(g *fw.GenCtx) {
+	genExtra(g)
 	gc := &gctx{r: g.Rand}
 	thorough := !g.Quick()
 	per := g.Pick(4, 8)
@@ -700,6 +702,16 @@ func observe(fs flagSet, rr runResult) obs {
 
 func run(c fw.Case) fw.Outcome {
 	var oc fw.Outcome
+	if c.Kind == "extra" {
+		var xc xcase
+		json.Unmarshal(c.Data, &xc)
+		if p := strayConfig(); p != "" {
+			oc.Inconc = append(oc.Inconc, "a falco configuration file exists in a parent of the work directory: "+p)
+			return oc
+		}
+		runExtra(&oc, xc)
+		return oc
+	}
 	var bt batch
 	if err := json.Unmarshal(c.Data, &bt); err != nil {
 		oc.Inconc = append(oc.Inconc, "bad case: "+err.Error())
